@@ -10,6 +10,7 @@ import (
 	"net/url"
 	"strings"
 	"sync"
+	"sync/atomic"
 	"time"
 
 	"verifharness/pkg/h"
@@ -86,10 +87,18 @@ func (w *fakeRW) releaseFail() {
 	}
 }
 
-// zapNop: despite its name, a logger that really encodes every entry and every field it is given (JSON encoder,
-// debug level, output discarded): the code that only runs when a log level is enabled — logger.Check(…) branches,
-// MarshalLogObject of subscribers and updates — is part of what the families execute. (zap.NewNop() skips all of it.)
+// zapNop: every other call returns a logger that really encodes every entry and every field it is given (JSON encoder,
+// debug level, output discarded) — so the code that only runs when a log level is enabled (logger.Check(…) branches,
+// MarshalLogObject of subscribers and updates) is part of what the families execute — and the calls in between return
+// zap.NewNop(), for which every level is disabled (code that only behaves when logging is off is executed too).
+// Deterministic: the choice depends on the number of loggers created so far.
+var zapCalls atomic.Int64
+
 func zapNop() *zap.Logger {
+	if zapCalls.Add(1)%2 == 0 {
+		return zap.NewNop()
+	}
+
 	return zap.New(zapcore.NewCore(zapcore.NewJSONEncoder(zap.NewProductionEncoderConfig()), zapcore.AddSync(io.Discard), zapcore.DebugLevel))
 }
 
